@@ -354,6 +354,56 @@ def cmp_dict(mo, io, a):
     return mo == io
 
 
+# =============================================================================== (ii'') xinclude, both handlers
+XI_FEATURES = {"attr", "elem", "child", "list", "text", "nillable", "wrapper", "sequence", "ns", "tokens", "fixed", "inherit"}
+
+
+def gen_doc_xinclude(rng, tier):
+    """process_xinclude=True: one element of a real serialization is cut out into a file of its own
+    and included back.  Inclusion must be transparent (model outcome on the expanded tree, computed
+    by libxml2's XInclude) and every way of breaking the inclusion must end in a documented error.
+    Universes without QName-typed or prefixed content: the pure-Python path (ElementTree) does not
+    keep the document's prefixes (C09/C11)."""
+    n_uni = n_cases(tier, 10, 80)
+    for _ in range(n_uni):
+        u, desc, ctx = new_universe(rng, XI_FEATURES)
+        for _ in range(2):
+            try:
+                obj = G.gen_instance(rng, u, "Root")
+                xml = G.real_serialize(u, obj, writer="lxml", xml_declaration=False).encode()
+                split = F.xinclude_split(rng, xml)
+            except Exception:  # noqa: BLE001
+                continue
+            if split is None:
+                continue
+            main, files = split
+            cfg = rng.choice(CONFIGS)
+            for k, m2, f2, expect in F.xinclude_fault_stream(rng, main, files):
+                if expect is None:
+                    t = F.expanded_tree(m2, f2)
+                    tok = {"tree": t} if t is not None else "include"
+                else:
+                    tok = expect
+                for handler in ("native", "lxml"):
+                    yield {"ctx": ctx if isinstance(tok, dict) and "tree" in tok else F.EMPTY_CTX, "tok": tok, "clazz": "Root", "config": cfg,
+                           "hex": m2.hex(), "files": {n: b.hex() for n, b in f2.items()}, "handler": handler,
+                           "desc": desc, "_uni": u.modname, "_kind": handler + "/" + k}
+
+
+def impl_doc_xinclude(a):
+    return F.real_xinclude(uni_of(a), a["clazz"], bytes.fromhex(a["hex"]), {n: bytes.fromhex(h) for n, h in a["files"].items()},
+                           a["handler"], a["config"])
+
+
+def cmp_doc_xinclude(mo, io, a):
+    if unsupported(mo):
+        return True
+    if not (isinstance(a["tok"], dict) and "tree" in a["tok"]):
+        # a broken inclusion / part: any documented error (which one comes first is the tokenizer's business)
+        return "err" in io and io["err"] in DOCUMENTED
+    return mo == io
+
+
 CORRS = [
     Corr("bind.parse_u", gen_tree_faults, impl_parse, compare=cmp_tree, classify=classify_tree,
          describe="NodeParser(EventsHandler) vs model (parseRootU: Element/Primitive/Standard/Wildcard/Skip/Wrapper/Union nodes) on valid documents and every tree-level fault kind"),
@@ -361,6 +411,8 @@ CORRS = [
          describe="XmlParser(XmlEventHandler).from_bytes vs model(parseDocument) on byte-level faults; tokenizer outcome from libxml2 strict"),
     Corr("fault.document.lxml", gen_doc_lxml, impl_doc_lxml, compare=cmp_doc_lxml, classify=classify_outcome,
          describe="XmlParser(LxmlEventHandler).from_bytes on byte-level faults: model outcome on well-formed input, no leak otherwise"),
+    Corr("fault.document.xinclude", gen_doc_xinclude, impl_doc_xinclude, compare=cmp_doc_xinclude, classify=classify_outcome,
+         describe="XmlParser(process_xinclude=True) with both handlers: inclusion is transparent (model outcome on the expanded tree), broken inclusions end in documented errors"),
     Corr("dict.decode", gen_dict, impl_dict, compare=cmp_dict, classify=classify_outcome,
          describe="DictDecoder.decode / JsonParser.from_bytes outcome class vs model on value-level and byte-level JSON faults"),
 ]
@@ -518,10 +570,52 @@ def gen_oracle_json(rng, tier):
                 yield {**base, "hex": b.hex(), "_kind": k}
 
 
+def gen_oracle_xinclude(rng, tier):
+    for a in gen_doc_xinclude(rng, tier):
+        yield {k: a[k] for k in ("hex", "files", "handler", "clazz", "config", "desc", "_uni", "_kind")}
+
+
+def check_xinclude(a):
+    """process_xinclude: an instance or a documented error; and an intact inclusion is transparent —
+    the same handler gives the same object for the expanded document parsed without xinclude"""
+    u = uni_of(a)
+    main = bytes.fromhex(a["hex"])
+    files = {n: bytes.fromhex(h) for n, h in a["files"].items()}
+    r = F.real_xinclude(u, a["clazz"], main, files, a["handler"], a.get("config", {}))
+    if "ok" in r:
+        if not _is_instance_val(u, r["ok"]["value"], a["clazz"]):
+            return f"{a['handler']}: xinclude result is not an instance of the requested class"
+    elif r["err"] == "HANG":
+        return f"{a['handler']}: no answer within {F.CAP_S:.0f} s"
+    elif r["err"] not in DOCUMENTED:
+        return f"{a['handler']}: {r['err']} escaped from XmlParser(process_xinclude=True).from_bytes"
+    if a.get("_kind", "").endswith("/valid"):
+        from lxml import etree
+        import os, shutil, tempfile
+
+        d = tempfile.mkdtemp(prefix="c15xo")
+        try:
+            for k, v in files.items():
+                open(os.path.join(d, k), "wb").write(v)
+            mp = os.path.join(d, "main.xml")
+            open(mp, "wb").write(main)
+            tree = etree.parse(mp)
+            tree.xinclude()
+            flat = etree.tostring(tree)
+        finally:
+            shutil.rmtree(d, ignore_errors=True)
+        r2 = F.real_xml_bytes(u, a["clazz"], flat, a["handler"], a.get("config", {}))
+        if r != r2:
+            return f"{a['handler']}: the included document parses to something else than the expanded one: {json.dumps(r)[:80]} vs {json.dumps(r2)[:80]}"
+    return None
+
+
 ORACLES = [
     Oracle("c15.tree", gen_oracle_tree, check_tree, from_ops=("bind.parse_u",)),
     Oracle("c15.xml_bytes", gen_oracle_xml, check_xml_bytes, covered=covered_xml,
            from_ops=("fault.document", "fault.document.lxml"), adapt=adapt_xml),
+    Oracle("c15.xinclude", gen_oracle_xinclude, check_xinclude, from_ops=("fault.document.xinclude",),
+           adapt=lambda op, a: {k: a[k] for k in ("hex", "files", "handler", "clazz", "config", "desc", "_uni", "_kind")}),
     Oracle("c15.json", gen_oracle_json, check_json, from_ops=("dict.decode",),
            adapt=lambda op, a: {k: a[k] for k in ("hex", "json", "clazz", "config", "list_of", "desc", "_uni", "_kind", "ctx", "loaded", "fuel") if k in a}),
 ]
